@@ -220,19 +220,30 @@ def diag_a(chk, fx):
         return
     g = gs_[0]
     cg = Canon(g)
-    rets = [(cg.c(n["value"]), cg.guards(n)) for n in walk(g.body) if n.get("k") == "ReturnStmt"]
+    from .. import pathsig as PS
+    from ..lr import _drop_noise
     I = "make_situation_info(@i{0..situation_address_space_size})"
     R = "gi.rule_infos[%s.rule_info_idx]" % I
-    good = any(v == "%s.r_idx" % R and "!!states[$0].test(@i{0..situation_address_space_size})" in gs or
-               v == "%s.r_idx" % R and any("states[$0].test(" in x for x in gs) for v, gs in rets)
-    cond_ok = any(v == "%s.r_idx" % R and any(("(%s.after >= %s.r_elements)" % (I, R)) in x and ("(%s.t == $1)" % I) in x
-                                                for x in gs) for v, gs in rets)
-    if good and cond_ok:
+    conds, nodes = PS.event_conditions(cg, g.body, unroll=1, drop=_drop_noise)
+    c = conds.get(("return", "%s.r_idx" % R))
+    want = PS.dnf([("states[$0].test(@i{0..situation_address_space_size})", True),
+                   ("(%s.after < %s.r_elements)" % (I, R), False), ("($1 == %s.t)" % I, True)])
+    alt = PS.dnf([("states[$0].test(@i{0..situation_address_space_size})", True),
+                  ("(%s.after < %s.r_elements)" % (I, R), False), ("(%s.t == $1)" % I, True)])
+    if c is not None and (PS.equivalent(c, want) or PS.equivalent(c, alt)):
         chk.ok("DIAG-A", A.site(g), "find_reduction_rule returns the rule of the state's completed item whose lookahead "
                                     "is the conflicting term")
-    else:
+    elif c is not None:
         chk.violation("DIAG-A", A.site(g), "DIAG-A:find_reduction_rule",
-                      "does not return r_idx of a completed item of the state with that lookahead: %s" % rets[:2])
+                      "the rule is taken from an item under the condition %s; it must be an item of the state that is "
+                      "complete and has the conflicting term as lookahead" % PS.show(c).replace(I, "info")[:260])
+    else:
+        rets = [t for (k, t) in conds if k == "return"]
+        if any(".r_idx" in t for t in rets):
+            chk.violation("DIAG-A", A.site(g), "DIAG-A:find_reduction_rule",
+                          "find_reduction_rule returns %s" % [t.replace(I, "info")[:100] for t in rets])
+        else:
+            chk.incomplete("find_reduction_rule: shape not recognised (returns %s)" % rets)
 
 
 def diag_t(chk, fx):
